@@ -362,21 +362,261 @@ fn analysis_error_json(e: &tx3_lang::analyzing::Error) -> Value {
 /// Seconds after which one source text counts as not terminating.
 pub const TIMEOUT_S: u64 = 20;
 
+/// Seconds given to a text whose definitions make the analyzer's repeated passes copy a large symbol graph.
+pub const ISOLATED_TIMEOUT_S: u64 = 4;
+/// Number of reference walks (summed over definitions and passes) from which a text is analysed in a process
+/// of its own.
+pub const GROWTH_LIMIT: u64 = 200_000;
+
+fn names_at(v: &Value, key: &str, out: &mut Vec<String>) {
+    // every `{key: {"value": name, ..}}` below v
+    match v {
+        Value::Object(m) => {
+            for (k, x) in m {
+                if k == key {
+                    if let Some(n) = x.get("value").and_then(|n| n.as_str()) {
+                        out.push(n.to_string());
+                    }
+                }
+                names_at(x, key, out);
+            }
+        }
+        Value::Array(a) => a.iter().for_each(|x| names_at(x, key, out)),
+        _ => {}
+    }
+}
+
+/// what `len` passes copy: the number of reference walks of length <= k from every node, summed over the nodes
+/// and over k = 1..len (saturating)
+fn walks(edges: &[Vec<usize>], len: usize) -> u64 {
+    let n = edges.len();
+    let mut w = vec![1u64; n];
+    let mut total = 0u64;
+    for _ in 0..len {
+        let mut next = vec![1u64; n];
+        for v in 0..n {
+            for &u in &edges[v] {
+                next[v] = next[v].saturating_add(w[u]);
+            }
+        }
+        w = next;
+        for x in &w {
+            total = total.saturating_add(*x);
+        }
+    }
+    total
+}
+
+/// How much the analyzer's passes have to copy for this program: every pass attaches to each identifier a
+/// copy of the definition it names (as annotated by the previous pass), so the symbol graph below a
+/// definition has one node per reference walk.  Returns (walks through type/alias definitions over the
+/// passes `resolve_types_and_aliases` will run, walks through locals/inputs over the ten passes of a
+/// transaction).
+pub fn pass_growth(ast: &Value) -> (u64, u64) {
+    let empty = vec![];
+    let arr = |k: &str| ast.get(k).and_then(|x| x.as_array()).unwrap_or(&empty).clone();
+    let name_of = |d: &Value| d.get("name").and_then(|n| n.get("value")).and_then(|n| n.as_str()).unwrap_or("").to_string();
+    // --- definitions
+    let types = arr("types");
+    let aliases = arr("aliases");
+    let mut index: std::collections::HashMap<String, usize> = Default::default();
+    let mut refs: Vec<Vec<String>> = vec![];
+    for t in types.iter() {
+        index.insert(name_of(t), refs.len());
+        let mut r = vec![];
+        names_at(t.get("cases").unwrap_or(&Value::Null), "Custom", &mut r);
+        refs.push(r);
+    }
+    let first_alias = refs.len();
+    for a in aliases.iter() {
+        index.insert(name_of(a), refs.len());
+        let mut r = vec![];
+        names_at(&json!({"t": a.get("alias_type").cloned().unwrap_or(Value::Null)}), "Custom", &mut r);
+        refs.push(r);
+    }
+    let mut scope: std::collections::HashSet<String> = index.keys().cloned().collect();
+    scope.insert("Ada".into());
+    for k in ["parties", "policies", "assets"] {
+        for d in arr(k).iter() {
+            scope.insert(name_of(d));
+        }
+    }
+    if let Some(fs) = ast.get("env").and_then(|e| e.get("fields")).and_then(|f| f.as_array()) {
+        for f in fs {
+            if let Some(n) = f.get("name").and_then(|n| n.as_str()) {
+                scope.insert(n.to_string());
+            }
+        }
+    }
+    let all_in_scope = refs.iter().all(|r| r.iter().all(|n| scope.contains(n)));
+    // alias chains: resolved when they end in a type definition
+    let mut chain_ok = true;
+    let mut longest = 0usize;
+    for (i, a) in aliases.iter().enumerate() {
+        let mut cur = first_alias + i;
+        let mut steps = 0usize;
+        loop {
+            let direct = if cur >= first_alias { aliases[cur - first_alias].get("alias_type").and_then(|t| t.get("Custom")).and_then(|c| c.get("value")).and_then(|n| n.as_str()) } else { None };
+            match direct.and_then(|n| index.get(n)) {
+                Some(&nx) if nx < first_alias => {
+                    steps += 1;
+                    break;
+                }
+                Some(&nx) if steps < aliases.len() + 1 => {
+                    cur = nx;
+                    steps += 1;
+                }
+                _ => {
+                    chain_ok = false;
+                    break;
+                }
+            }
+        }
+        let _ = a;
+        longest = longest.max(steps);
+    }
+    let passes = if all_in_scope && chain_ok { 1 + longest } else { 100 };
+    let edges: Vec<Vec<usize>> = refs.iter().map(|r| r.iter().filter_map(|n| index.get(n).copied()).collect()).collect();
+    let type_walks = walks(&edges, passes);
+    // --- transactions
+    let mut tx_walks = 0u64;
+    for tx in arr("txs").iter() {
+        let mut idx: std::collections::HashMap<String, usize> = Default::default();
+        let mut bodies: Vec<Value> = vec![];
+        if let Some(ls) = tx.get("locals").and_then(|l| l.get("assigns")).and_then(|a| a.as_array()) {
+            for l in ls {
+                idx.insert(name_of(l), bodies.len());
+                bodies.push(l.get("value").cloned().unwrap_or(Value::Null));
+            }
+        }
+        if let Some(is) = tx.get("inputs").and_then(|a| a.as_array()) {
+            for i in is {
+                if let Some(n) = i.get("name").and_then(|n| n.as_str()) {
+                    idx.insert(n.to_string(), bodies.len());
+                    bodies.push(i.get("fields").cloned().unwrap_or(Value::Null));
+                }
+            }
+        }
+        let e: Vec<Vec<usize>> = bodies
+            .iter()
+            .map(|b| {
+                let mut r = vec![];
+                names_at(b, "Identifier", &mut r);
+                r.iter().filter_map(|n| idx.get(n).copied()).collect()
+            })
+            .collect();
+        tx_walks = tx_walks.max(walks(&e, 10));
+    }
+    (type_walks, tx_walks)
+}
+
+/// Tags of the structural class (computed from the parsed tree alone, before any analysis).
+pub fn growth_tags(ast: &tx3_lang::ast::Program) -> Vec<String> {
+    let v = serde_json::to_value(ast).unwrap_or(Value::Null);
+    let (t, x) = pass_growth(&v);
+    let mut tags = vec![];
+    if t >= GROWTH_LIMIT {
+        tags.push("type-symbol-growth".to_string());
+    }
+    // the type symbols are copied into every identifier of a transaction that names a parameter of that type
+    if x >= GROWTH_LIMIT || (t < GROWTH_LIMIT && x.saturating_mul(t / 100 + 1) >= GROWTH_LIMIT) {
+        tags.push("tx-symbol-growth".to_string());
+    }
+    tags
+}
+
+/// Runs `observe` of `mode` (C12-child / C13-child) on `input` in a process of its own, killed after
+/// `ISOLATED_TIMEOUT_S` seconds, so that an analysis that copies without end takes no memory with it.
+pub fn observe_isolated(mode: &str, input: &str, tags: &[String]) -> Value {
+    static N: std::sync::atomic::AtomicU64 = std::sync::atomic::AtomicU64::new(0);
+    let k = N.fetch_add(1, std::sync::atomic::Ordering::SeqCst);
+    let path = std::env::temp_dir().join(format!("tx3verif-iso-{}-{}.tx3", std::process::id(), k));
+    if std::fs::write(&path, input).is_err() {
+        return json!({"timeout": 0, "note": "scratch file", "class_tags": tags});
+    }
+    let exe = std::env::current_exe().unwrap();
+    let child = std::process::Command::new(exe)
+        .args([mode, "--replay", path.to_str().unwrap()])
+        .stdout(std::process::Stdio::piped())
+        .stderr(std::process::Stdio::null())
+        .spawn();
+    // a text outside the growth classes gets the ordinary limit
+    let limit = if tags.is_empty() { TIMEOUT_S } else { ISOLATED_TIMEOUT_S };
+    let mut res = json!({"timeout": limit});
+    if let Ok(mut c) = child {
+        let t0 = std::time::Instant::now();
+        let mut out = c.stdout.take().unwrap();
+        let reader = std::thread::spawn(move || {
+            let mut s = String::new();
+            let _ = std::io::Read::read_to_string(&mut out, &mut s);
+            s
+        });
+        loop {
+            match c.try_wait() {
+                Ok(Some(_)) => {
+                    if let Ok(s) = reader.join() {
+                        if let Ok(v) = serde_json::from_str::<Value>(s.trim()) {
+                            res = v;
+                        } else {
+                            res = json!({"abort": "the process died without an answer"});
+                        }
+                    }
+                    break;
+                }
+                Ok(None) if t0.elapsed().as_secs() >= limit => {
+                    let _ = c.kill();
+                    let _ = c.wait();
+                    break;
+                }
+                Ok(None) => std::thread::sleep(std::time::Duration::from_millis(20)),
+                Err(_) => break,
+            }
+        }
+    }
+    let _ = std::fs::remove_file(&path);
+    if let Value::Object(m) = &mut res {
+        m.insert("class_tags".into(), json!(tags));
+    }
+    res
+}
+
+/// Child side of `observe_isolated`.
+pub fn run_child(opts: &Opts, c13: bool) {
+    let text = opts.replay.as_ref().and_then(|p| std::fs::read_to_string(p).ok()).unwrap_or_default();
+    let v = if c13 { crate::c13::observe_unisolated(&text) } else { observe_inner(&text) };
+    println!("{v}");
+}
+
+/// The class tags of a text (empty when it does not parse, or parses into something small).
+pub fn class_of(input: &str) -> Vec<String> {
+    match guarded(|| tx3_lang::parsing::parse_string(input)) {
+        Ok(Ok(ast)) => growth_tags(&ast),
+        _ => vec![],
+    }
+}
+
 /// Everything the front end does with one source text, on a thread with the main thread's stack
 /// size; a text that takes longer than `TIMEOUT_S` is reported as a timeout (its thread is left
-/// behind).
+/// behind).  A text of a growth class runs in a process of its own instead.
 pub fn observe(input: &str) -> Value {
     let (tx, rx) = std::sync::mpsc::channel();
     let text = input.to_string();
     let spawned = std::thread::Builder::new().stack_size(8 << 20).spawn(move || {
-        let v = observe_inner(&text);
+        let tags = class_of(&text);
+        let v = if tags.is_empty() { observe_inner(&text) } else { json!({"isolate": tags}) };
         let _ = tx.send(v);
     });
     if spawned.is_err() {
         return json!({"timeout": 0, "note": "thread spawn failed"});
     }
     match rx.recv_timeout(std::time::Duration::from_secs(TIMEOUT_S)) {
-        Ok(v) => v,
+        Ok(v) => match v.get("isolate") {
+            Some(tags) => {
+                let tags: Vec<String> = tags.as_array().map(|a| a.iter().filter_map(|t| t.as_str().map(String::from)).collect()).unwrap_or_default();
+                observe_isolated("C12-child", input, &tags)
+            }
+            None => v,
+        },
         Err(_) => json!({"timeout": TIMEOUT_S}),
     }
 }
@@ -456,6 +696,68 @@ pub fn example_corpus() -> Vec<(String, String)> {
 }
 
 /// Inputs that made the front end panic or mislabel at the pinned commit.
+/// A program made of type, alias and local definitions referring to each other at random: self-reference,
+/// cycles, chains, undefined names, aliases of built-in types, several references to one definition.
+pub fn definition_graph_source(r: &mut Rng, fan: bool) -> String {
+    let nt = 1 + r.below(4) as usize;
+    let na = r.below(4) as usize;
+    let tname = |i: usize| format!("T{i}");
+    let aname = |i: usize| format!("A{i}");
+    let mut any_ty = |r: &mut Rng| -> String {
+        match r.below(10) {
+            0 => "Int".into(),
+            1 => "Bytes".into(),
+            2 => "Undefined".into(),
+            3 | 4 if na > 0 => aname(r.below(na as u64) as usize),
+            5 => format!("List<{}>", tname(r.below(nt as u64) as usize)),
+            _ => tname(r.below(nt as u64) as usize),
+        }
+    };
+    let mut s = String::from("party P;\n");
+    for i in 0..na {
+        let target = match r.below(4) {
+            0 => "Int".to_string(),
+            1 => aname(r.below(na as u64) as usize),
+            _ => tname(r.below(nt as u64) as usize),
+        };
+        s.push_str(&format!("type {} = {};\n", aname(i), target));
+    }
+    for i in 0..nt {
+        let nf = 1 + r.below(if fan { 4 } else { 3 }) as usize;
+        s.push_str(&format!("type {} {{\n", tname(i)));
+        for f in 0..nf {
+            let ty = if r.chance(1, 3) { "Int".to_string() } else { any_ty(r) };
+            s.push_str(&format!("  f{f}: {ty},\n"));
+        }
+        s.push_str("}\n");
+    }
+    let nl = r.below(5) as usize;
+    s.push_str(&format!("tx t(x: Int, rec: {}) {{\n", tname(0)));
+    if nl > 0 {
+        s.push_str("  locals {\n");
+        for i in 0..nl {
+            let wide = fan && r.chance(1, 2);
+            let terms = 1 + r.below(if wide { 9 } else { 3 }) as usize;
+            let mut e = vec![];
+            for _ in 0..terms {
+                e.push(match r.below(6) {
+                    0 => "x".to_string(),
+                    1 => "1".to_string(),
+                    2 => "rec.f0".to_string(),
+                    3 => "src".to_string(),
+                    _ => format!("l{}", r.below(nl as u64)),
+                });
+            }
+            s.push_str(&format!("    l{i}: {},\n", e.join(" + ")));
+        }
+        s.push_str("  }\n");
+    }
+    let l = if nl > 0 { format!("l{}", r.below(nl as u64)) } else { "x".into() };
+    s.push_str(&format!("  input src {{\n    from: P,\n    min_amount: Ada({l}),\n  }}\n"));
+    s.push_str(&format!("  output {{\n    to: P,\n    amount: src - fees,\n    datum: {} {{ f0: {l}, }},\n  }}\n}}\n", if na > 0 && r.chance(1, 2) { aname(0) } else { tname(0) }));
+    s
+}
+
 pub const PAST_FAILURES: [&str; 15] = [
     "tx t() { output { to: A, amount: Ada(99999999999999999999), } }",
     "tx t() { output { to: A, amount: Ada(-9223372036854775809), } }",
@@ -566,6 +868,27 @@ pub fn run(opts: &Opts, out: &mut Emitter) {
     // (e) reproduced failures first
     for s in PAST_FAILURES.iter() {
         out.case("past-failure", || json!({"input": s, "obs": observe(s)}));
+    }
+    // (e') definition graphs: types, aliases and locals that refer to each other (and to themselves), in every
+    // shape; mostly small symbol graphs, which must come back at once, plus a fixed few of the growth classes
+    let (small, large) = if opts.thorough { (600, 24) } else { (80, 4) };
+    let mut made = (0usize, 0usize);
+    let mut tries = 0usize;
+    while (made.0 < small || made.1 < large) && tries < 40 * (small + large) {
+        tries += 1;
+        let want_large = made.0 >= small || (made.1 < large && tries % 8 == 0);
+        let text = definition_graph_source(&mut r, want_large);
+        let big = !class_of(&text).is_empty();
+        if big != want_large {
+            continue;
+        }
+        if big {
+            made.1 += 1;
+        } else {
+            made.0 += 1;
+        }
+        // always in a process of its own: a stack overflow or an allocation failure is then an observation
+        out.case("definition-graph", || json!({"input": text, "obs": observe_isolated("C12-child", &text, &class_of(&text))}));
     }
     // (a) the corpus itself
     for (name, text) in corpus.iter() {
